@@ -727,6 +727,7 @@ func main() {
 	tier := flag.String("tier", "quick", "quick|thorough")
 	out := flag.String("out", "", "output directory")
 	replay := flag.String("replay", "", "replay file (JSON with .input = a recipe)")
+	regress := flag.String("regress", "", "directory of regression recipes (JSON files with .input = a recipe), run first")
 	n := flag.Int("n", 0, "number of generated content recipes (0 = tier default)")
 	workers := flag.Int("workers", 12, "parallel children")
 	repo := flag.String("repo", "/repo", "repository (for the fuzz corpora)")
@@ -770,6 +771,22 @@ func main() {
 		}
 		recipes = []*Recipe{rp.Input}
 	} else {
+		// regression recipes (corpus/C13): inputs of earlier violations, run before everything else
+		if *regress != "" {
+			files, _ := filepath.Glob(filepath.Join(*regress, "*.json"))
+			sort.Strings(files)
+			for _, f := range files {
+				raw, err := os.ReadFile(f)
+				var rp struct {
+					Input *Recipe `json:"input"`
+				}
+				if err != nil || json.Unmarshal(raw, &rp) != nil || rp.Input == nil {
+					fmt.Fprintln(os.Stderr, "regression file has no .input recipe:", f)
+					os.Exit(2)
+				}
+				recipes = append(recipes, rp.Input)
+			}
+		}
 		recipes = append(recipes, boundaryRecipes()...)
 		for i := 0; i < count; i++ {
 			recipes = append(recipes, genRecipe(rng.New(*seed, uint64(i))))
